@@ -2,6 +2,7 @@ import TypVerif.Drv.Proto
 import TypVerif.Conc.Sys
 import TypVerif.Model.Chan
 import TypVerif.Model.ChanHelpers
+import TypVerif.Model.RecvQueuedConc
 /-
 Judge for C19 (PROTOCOL.md §C19).  One line per call / scenario.
 
@@ -12,7 +13,8 @@ Queued receivers (exact; model = the loop model, spec = take/drop):
     is pre-filled with -7; remaining = what a non-blocking drain yields afterwards.
 
   recvqueuedconc <cap> <fill> <closed> <g> <limit> => <lists> <remaining>
-    g goroutines call RecvQueued(ch, limit) at once (no sender); judged by the conservation predicate spelled out at the case below.
+    g goroutines call RecvQueued(ch, limit) at once (no sender); judged by the conservation predicate `Model.RecvQueuedConc.concVerdict`
+    (sound for the model of the concurrent loops: C19.recvQueued_conc_predicate_sound).
 
 Timed helpers (outcome sets; the helper sends 99; peers send 77):
   sendtimeout <cap> <fill> <tmo_ms> <peer>            => <bool> <peerGot> <remaining>
@@ -183,18 +185,9 @@ def step (_ : Unit) (toks : List Val) (impl : String) : Unit × Out :=
       | [ls, r] =>
         match ls.intss?, r.ints? with
         | some lists, some rem =>
-          let lim := limit.toNat
-          let all := lists.flatten ++ rem
-          let incr (l : List Int) : Bool := (l.zip l.tail).all (fun p => p.1 < p.2)
-          if lists.length ≠ g.toNat then some "wrong-number-of-results"
-          else if all.any (fun v => v < 1 ∨ v > fill) then some "invented-value"
-          else if all.length ≠ (Conc.dedup all).length then some "value-delivered-twice"
-          else if all.length ≠ fill.toNat then some "value-lost"
-          else if lists.any (fun l => !incr l) then some "not-fifo"
-          else if lists.any (fun l => l.length > lim) then some "more-than-limit"
-          else if rem ≠ (fillList fill.toNat).drop (fill.toNat - rem.length) then some "remaining-not-a-suffix"
-          else if lists.any (fun l => l.length < lim) ∧ !rem.isEmpty then some "stopped-early-with-values-queued"
-          else none
+          -- the predicate lives in Model/RecvQueuedConc.lean; C19.recvQueued_conc_predicate_sound: it accepts every final state of the
+          -- transition system of g concurrent RecvQueued loops (all interleavings)
+          Model.RecvQueuedConc.concVerdict fill.toNat g.toNat limit lists rem
         | _, _ => some "unparseable-result"
       | _ => some "unparseable-result"
     (match verdict with
